@@ -169,11 +169,24 @@ func TestReplay(t *testing.T) {
 	}
 	var sc *Scenario
 	var pd *PropDef
+	// scenario names can exist in both tiers with different options: prefer the one whose
+	// level and bound match the recording
+	best := -1
 	for _, p := range Props {
 		for _, tier := range []string{"quick", "thorough"} {
 			for _, s := range p.Scenarios(tier) {
-				if s.Name == rf.Scenario {
-					sc, pd = s, p
+				if s.Name != rf.Scenario {
+					continue
+				}
+				score := 0
+				if s.Opt.Level == rf.Level {
+					score += 2
+				}
+				if s.Opt.Bound == rf.Bound {
+					score++
+				}
+				if score > best {
+					best, sc, pd = score, s, p
 				}
 			}
 		}
